@@ -270,6 +270,7 @@ func TestCheck(t *testing.T) {
 	for _, kd := range kinds() {
 		runMatrix(t, run, kd, envs)
 	}
+	runSched(run, envs[0]) // after the matrix: only one controlled execution may be active, and none next to Engine A workers
 	fin(run.Finish())
 }
 
@@ -278,6 +279,9 @@ func replay(t *testing.T, run *report.Run, e *kenv) int {
 	if err != nil {
 		fmt.Println("HARNESS-ERROR", err)
 		return 2
+	}
+	if strings.HasPrefix(v.Part, "sched:") {
+		return replaySched(e, v)
 	}
 	if strings.HasPrefix(v.Part, "matrix:") {
 		name := strings.TrimPrefix(v.Part, "matrix:")
